@@ -296,5 +296,611 @@ theorem ends_nondet (m : MacroDef) (last : Token) (hl : m.rule.getLast? = some l
     exact two_trees m init last hm argsT argsT2 ha ha2 (by rw [hs]; rfl) (by rw [hs]; rfl) 6 [1]
       (by simp [argsT2, argsT, valT, idT, Tree.yield, Forest.yield]) (by decide)
 
+/-! ## 4. the driver, generically: homomorphic values, invariants with a step counter -/
+
+/-- a map of tokens and a homomorphism of semantic values commute with the driver -/
+theorem lrParse_hom {τ₁ τ₂ V₁ V₂ : Type} (T : Tables) (term₁ : τ₁ → Nat) (term₂ : τ₂ → Nat)
+    (leaf₁ : τ₁ → V₁) (leaf₂ : τ₂ → V₂) (act₁ : Nat → Nat → List V₁ → V₁)
+    (act₂ : Nat → Nat → List V₂ → V₂) (g : τ₁ → τ₂) (f : V₁ → V₂)
+    (hterm : ∀ x, term₂ (g x) = term₁ x) (hleaf : ∀ x, leaf₂ (g x) = f (leaf₁ x))
+    (hact : ∀ l a popped, act₂ l a (popped.map f) = f (act₁ l a popped))
+    (fuel : Nat) : ∀ (inp : List τ₁) (sts : List Nat) (vs : List V₁),
+    lrParse T term₂ leaf₂ act₂ fuel (inp.map g) sts (vs.map f) =
+      pmap f (lrParse T term₁ leaf₁ act₁ fuel inp sts vs) := by
+  induction fuel with
+  | zero => intro inp sts vs; simp [lrParse, pmap]
+  | succ fuel ih =>
+    intro inp sts vs
+    cases sts with
+    | nil => simp [lrParse, pmap]
+    | cons s srest =>
+      cases inp with
+      | nil => simp [lrParse, pmap]
+      | cons x xs =>
+        simp only [lrParse, List.map_cons, hterm]
+        cases hrow : T.action[s]? with
+        | none => simp [pmap]
+        | some row =>
+          simp only []
+          by_cases hlen : row.length ≤ term₁ x
+          · simp [hlen, pmap]
+          · simp only [hlen, if_false]
+            cases hc : (row[term₁ x]?).getD .err with
+            | err => simp [pmap]
+            | shift s' =>
+              simp only []
+              have := ih xs (s' :: s :: srest) (leaf₁ x :: vs)
+              simpa [hleaf] using this
+            | accept =>
+              cases vs with
+              | nil => simp [pmap]
+              | cons v vs => simp [pmap]
+            | reduce left alt beta =>
+              simp only [List.length_map, List.length_cons]
+              by_cases hb : vs.length < beta ∨ srest.length + 1 ≤ beta
+              · simp [hb, pmap]
+              · simp only [hb, if_false]
+                cases hd : (s :: srest).drop beta with
+                | nil => simp [pmap]
+                | cons sp rest' =>
+                  simp only []
+                  cases hg : ((T.goto[sp]?).bind (·[left]?)) with
+                  | none => simp [pmap]
+                  | some j =>
+                    simp only []
+                    by_cases hj : j < 0
+                    · simp [hj, pmap]
+                    · simp only [hj, if_false]
+                      have := ih (x :: xs) (j.toNat :: sp :: rest')
+                        (act₁ left alt (vs.take beta) :: vs.drop beta)
+                      rw [← this]
+                      simp [← hact, List.map_take, List.map_drop]
+
+/-- an invariant `P` (indexed by the number of steps) preserved by shifts and reductions holds in
+    the accepting configuration; the run accepts after exactly that many steps -/
+theorem lrParse_inv {τ V : Type} (T : Tables) (term : τ → Nat) (leaf : τ → V)
+    (act : Nat → Nat → List V → V) (P : Nat → List τ → List Nat → List V → Prop)
+    (hshift : ∀ (n : Nat) (x : τ) (xs : List τ) (s : Nat) (srest : List Nat) (vals : List V)
+      (row : List Action) (s' : Nat), T.action[s]? = some row → term x < row.length →
+      (row[term x]?).getD .err = .shift s' → P n (x :: xs) (s :: srest) vals →
+      P (n + 1) xs (s' :: s :: srest) (leaf x :: vals))
+    (hred : ∀ (n : Nat) (x : τ) (xs : List τ) (s : Nat) (srest : List Nat) (vals : List V)
+      (row : List Action) (l al beta sp : Nat) (rest' : List Nat) (j : Int),
+      T.action[s]? = some row → term x < row.length →
+      (row[term x]?).getD .err = .reduce l al beta → beta ≤ vals.length →
+      (s :: srest).drop beta = sp :: rest' → (T.goto[sp]?).bind (·[l]?) = some j → 0 ≤ j →
+      P n (x :: xs) (s :: srest) vals →
+      P (n + 1) (x :: xs) (j.toNat :: sp :: rest') (act l al (vals.take beta) :: vals.drop beta)) :
+    ∀ (fuel n : Nat) (inp : List τ) (sts : List Nat) (vals : List V) (v : V),
+      P n inp sts vals → lrParse T term leaf act fuel inp sts vals = .accept v →
+      ∃ (k : Nat) (x : τ) (xs : List τ) (s : Nat) (srest : List Nat) (vals' : List V) (row : List Action),
+        P (n + k) (x :: xs) (s :: srest) (v :: vals') ∧
+        T.action[s]? = some row ∧ term x < row.length ∧ (row[term x]?).getD .err = .accept ∧
+        lrParse T term leaf act (k + 1) inp sts vals = .accept v := by
+  intro fuel
+  induction fuel with
+  | zero => intro n inp sts vals v _ h; simp [lrParse] at h
+  | succ fuel ih =>
+    intro n inp sts vals v hP h
+    cases sts with
+    | nil => simp [lrParse] at h
+    | cons s srest =>
+      cases inp with
+      | nil => simp [lrParse] at h
+      | cons x xs =>
+        simp only [lrParse] at h
+        cases hrow : T.action[s]? with
+        | none => rw [hrow] at h; simp at h
+        | some row =>
+          rw [hrow] at h
+          simp only [] at h
+          by_cases hlen : row.length ≤ term x
+          · simp [hlen] at h
+          · simp only [hlen, if_false] at h
+            have hx : term x < row.length := by omega
+            cases hc : (row[term x]?).getD .err with
+            | err => rw [hc] at h; simp at h
+            | shift s' =>
+              rw [hc] at h
+              simp only [] at h
+              obtain ⟨k, x', xs', s2, srest2, vals', row', hP', hr', hx', hc', hrun⟩ :=
+                ih (n + 1) _ _ _ v (hshift n x xs s srest vals row s' hrow hx hc hP) h
+              refine ⟨k + 1, x', xs', s2, srest2, vals', row', ?_, hr', hx', hc', ?_⟩
+              · rw [show n + (k + 1) = n + 1 + k by omega]; exact hP'
+              · simp only [lrParse, hrow, hc]
+                simp only [hlen, if_false]
+                exact hrun
+            | accept =>
+              rw [hc] at h
+              simp only [] at h
+              cases vals with
+              | nil => simp at h
+              | cons v0 vs =>
+                simp only [ParseOut.accept.injEq] at h
+                subst h
+                refine ⟨0, x, xs, s, srest, vs, row, hP, hrow, hx, hc, ?_⟩
+                simp only [lrParse, hrow, hc]
+                simp [hlen]
+            | reduce l al beta =>
+              rw [hc] at h
+              simp only [] at h
+              by_cases hb : vals.length < beta ∨ (s :: srest).length ≤ beta
+              · rw [if_pos hb] at h; simp at h
+              · simp only [hb, if_false] at h
+                cases hd : (s :: srest).drop beta with
+                | nil => rw [hd] at h; simp at h
+                | cons sp rest' =>
+                  rw [hd] at h
+                  simp only [] at h
+                  cases hg : ((T.goto[sp]?).bind (·[l]?)) with
+                  | none => rw [hg] at h; simp at h
+                  | some j =>
+                    rw [hg] at h
+                    simp only [] at h
+                    by_cases hj : j < 0
+                    · simp [hj] at h
+                    · simp only [hj, if_false] at h
+                      obtain ⟨k, x', xs', s2, srest2, vals', row', hP', hr', hx', hc', hrun⟩ :=
+                        ih (n + 1) _ _ _ v
+                          (hred n x xs s srest vals row l al beta sp rest' j hrow hx hc (by simp only [List.length_cons] at hb; omega) hd hg
+                            (by omega) hP) h
+                      refine ⟨k + 1, x', xs', s2, srest2, vals', row', ?_, hr', hx', hc', ?_⟩
+                      · rw [show n + (k + 1) = n + 1 + k by omega]; exact hP'
+                      · simp only [lrParse, hrow, hc]
+                        simp only [hlen, if_false, hb, hd, hg, hj]
+                        exact hrun
+
+/-! ## 5. the detector run with (tree, accumulation) pairs as values -/
+
+mutual
+/-- the accumulation computed for a tree from exactly the tokens it derives -/
+def tval : Tree → List Token → Accum
+  | .leaf _, ts => accLeaf (ts.headD default)
+  | .node l a cs, ts => accAct l a (tvalRev cs ts)
+/-- the accumulations of a forest, last tree first; the tokens are distributed by yield length -/
+def tvalRev : Forest → List Token → List Accum
+  | .nil, _ => []
+  | .cons t f, ts => tvalRev f (ts.drop t.yield.length) ++ [tval t (ts.take t.yield.length)]
+end
+
+mutual
+/-- number of leaves and inner nodes -/
+def nodes : Tree → Nat
+  | .leaf _ => 1
+  | .node _ _ cs => fnodes cs + 1
+def fnodes : Forest → Nat
+  | .nil => 0
+  | .cons t f => nodes t + fnodes f
+end
+
+theorem fnodes_ofList (ts : List Tree) : fnodes (Forest.ofList ts) = (ts.map nodes).sum := by
+  induction ts with
+  | nil => rfl
+  | cons t ts ih => simp [Forest.ofList, fnodes, ih]
+
+theorem tvalRev_snoc (t : Tree) : ∀ (l : List Tree) (seg' seg : List Token),
+    seg'.length = (Forest.ofList l).yield.length → seg.length = t.yield.length →
+    tvalRev (Forest.ofList (l ++ [t])) (seg' ++ seg) = tval t seg :: tvalRev (Forest.ofList l) seg' := by
+  intro l
+  induction l with
+  | nil =>
+    intro seg' seg h1 h2
+    simp only [Forest.ofList, Forest.yield, List.length_nil, List.length_eq_zero_iff] at h1
+    subst h1
+    simp [Forest.ofList, tvalRev, ← h2]
+  | cons u l ih =>
+    intro seg' seg h1 h2
+    simp only [Forest.ofList, Forest.yield, List.length_append] at h1
+    simp only [List.cons_append, Forest.ofList, tvalRev]
+    have hd : (seg' ++ seg).drop u.yield.length = seg'.drop u.yield.length ++ seg := by
+      rw [List.drop_append_of_le_length (by omega)]
+    have ht : (seg' ++ seg).take u.yield.length = seg'.take u.yield.length := by
+      rw [List.take_append_of_le_length (by omega)]
+    rw [hd, ht, ih _ _ (by simp; omega) h2]
+    simp
+
+abbrev kindOf (t : Token) : Nat := t.kind
+
+/-- the value stack (top first) is the decoration of its trees by the consumed tokens -/
+inductive SRel : List (Tree × Accum) → List Token → Prop
+  | nil : SRel [] []
+  | cons {vs : List (Tree × Accum)} {c seg : List Token} {t : Tree} :
+      SRel vs c → seg.map kindOf = t.yield → SRel ((t, tval t seg) :: vs) (c ++ seg)
+
+theorem srel_split {vs : List (Tree × Accum)} {c : List Token} (h : SRel vs c) :
+    ∀ beta, beta ≤ vs.length → ∃ c0 seg, SRel (vs.drop beta) c0 ∧ c = c0 ++ seg ∧
+      seg.map kindOf = (Forest.ofList ((vs.take beta).map Prod.fst).reverse).yield ∧
+      tvalRev (Forest.ofList ((vs.take beta).map Prod.fst).reverse) seg = (vs.take beta).map Prod.snd := by
+  induction h with
+  | nil =>
+    intro beta hb
+    simp only [List.length_nil, Nat.le_zero] at hb
+    subst hb
+    exact ⟨[], [], SRel.nil, rfl, rfl, rfl⟩
+  | @cons vs c seg t hprev hseg ih =>
+    intro beta hb
+    cases beta with
+    | zero => exact ⟨c ++ seg, [], SRel.cons hprev hseg, by simp, rfl, rfl⟩
+    | succ beta =>
+      obtain ⟨c0, seg', h1, h2, h3, h4⟩ := ih beta (by simpa using hb)
+      refine ⟨c0, seg' ++ seg, by simpa using h1, by rw [h2, List.append_assoc], ?_, ?_⟩
+      · simp only [List.take_succ_cons, List.map_cons, List.reverse_cons, List.map_append, h3, hseg]
+        simp [yield_ofList]
+      · simp only [List.take_succ_cons, List.map_cons, List.reverse_cons]
+        rw [tvalRev_snoc, h4]
+        · have := congrArg List.length h3
+          simpa using this
+        · have := congrArg List.length hseg
+          simpa using this
+
+def pleaf (x : Token) : Tree × Accum := (Tree.leaf x.kind, accLeaf x)
+def pact (l a : Nat) (popped : List (Tree × Accum)) : Tree × Accum :=
+  (nodeAct l a (popped.map Prod.fst), accAct l a (popped.map Prod.snd))
+
+/-- the driver on tokens computing the tree and the accumulation side by side -/
+abbrev prun (T : Tables) (fuel : Nat) (inp : List Token) (sts : List Nat) (vals : List (Tree × Accum)) :
+    ParseOut (Tree × Accum) :=
+  lrParse T kindOf pleaf pact fuel inp sts vals
+
+theorem prun_fst (T : Tables) (fuel : Nat) (inp : List Token) :
+    lrParseTree T fuel (inp.map kindOf) = pmap Prod.fst (prun T fuel inp [0] []) := by
+  have := lrParse_hom T kindOf (fun (t : Nat) => t) pleaf Tree.leaf pact nodeAct kindOf Prod.fst
+    (fun _ => rfl) (fun _ => rfl) (fun _ _ _ => rfl) fuel inp [0] []
+  simpa [lrParseTree] using this
+
+theorem prun_snd (T : Tables) (fuel : Nat) (inp : List Token) :
+    lrParse T kindOf accLeaf accAct fuel inp [0] [] = pmap Prod.snd (prun T fuel inp [0] []) := by
+  have := lrParse_hom T kindOf kindOf pleaf accLeaf pact accAct id Prod.snd
+    (fun _ => rfl) (fun _ => rfl) (fun _ _ _ => rfl) fuel inp [0] []
+  simpa using this
+
+theorem srel_single {t : Tree} {a : Accum} {c : List Token} (h : SRel [(t, a)] c) :
+    c.map kindOf = t.yield ∧ a = tval t c := by
+  cases h with
+  | cons hprev hseg =>
+    cases hprev
+    exact ⟨by simpa using hseg, by simp⟩
+
+/-- an accepting run of the pair driver: the tree's tokens are a proper prefix of the input, the
+    accumulation is the decoration of the tree, and the run takes `nodes t + 1` steps -/
+theorem prun_accept (g : Grammar) (start eof : Nat) (pm : Bool) (sfuel : Nat)
+    (hg : g.Closed) (hs : start < g.numNT) (fuel : Nat) (inp : List Token) (t : Tree) (a : Accum)
+    (h : prun (genTables g start eof pm sfuel).1 fuel inp [0] [] = .accept (t, a)) :
+    ∃ cons x xs, inp = cons ++ x :: xs ∧ cons.map kindOf = t.yield ∧ a = tval t cons ∧
+      prun (genTables g start eof pm sfuel).1 (nodes t + 1) inp [0] [] = .accept (t, a) := by
+  have hS := collection_inv (g.augment start eof) (firstSets (g.augment start eof)) g.numNT eof sfuel
+  have hT := genTables_ok g start eof pm sfuel
+  generalize hSdef : collection (g.augment start eof) (firstSets (g.augment start eof)) g.numNT eof sfuel = S
+    at hS hT
+  generalize (genTables g start eof pm sfuel).1 = T at hT h ⊢
+  let P : Nat → List Token → List Nat → List (Tree × Accum) → Prop := fun n inp' sts vals =>
+    (∃ q qs, sts = q :: qs ∧ Stk S q qs (vals.map (fun p => p.1.root))) ∧
+    (vals.map (fun p => nodes p.1)).sum = n ∧ ∃ cons, SRel vals cons ∧ cons ++ inp' = inp
+  have hmain := lrParse_inv T kindOf pleaf pact P ?_ ?_ fuel 0 inp [0] [] (t, a)
+    ⟨⟨0, [], rfl, Stk.base⟩, rfl, [], SRel.nil, rfl⟩ h
+  · obtain ⟨k, x, xs, s, srest, vals', row, ⟨⟨q, qs, hsts, hstk⟩, hsum, cons, hrel, hinp⟩, hrow, hx, hc, hrun⟩ :=
+      hmain
+    cases hsts
+    obtain ⟨st, hst, hrowok⟩ := hT.1 s row hrow
+    have hcell := hrowok (kindOf x)
+    rw [hc] at hcell
+    obtain ⟨it, hit, hdot, hl, _⟩ := hcell
+    have ok := stk_items g start eof _ S hg hs hS hstk st hst it hit
+    have hl' : it.left = g.numNT := by rw [hl, augment_numNT]; omega
+    obtain ⟨_, hrhs, _⟩ := good_S g start eof hg ok.good hl'
+    have hd1 : it.dot = 1 := by rw [hdot, hrhs]; rfl
+    have hsyms := ok.s1 hl' hd1
+    simp only [List.map_cons, List.cons.injEq, List.map_eq_nil_iff] at hsyms
+    obtain ⟨_, hvs⟩ := hsyms
+    subst hvs
+    obtain ⟨hy, ha⟩ := srel_single hrel
+    simp only [List.map_cons, List.map_nil, List.sum_cons, List.sum_nil, Nat.add_zero, Nat.zero_add] at hsum
+    rw [hsum]
+    exact ⟨cons, x, xs, hinp.symm, hy, ha, hrun⟩
+  · -- shift
+    intro n x xs s srest vals row s' hrow hx hc ⟨⟨q, qs, hsts, hstk⟩, hsum, cons, hrel, hinp⟩
+    cases hsts
+    obtain ⟨st, hst, hrowok⟩ := hT.1 s row hrow
+    have hcell := hrowok (kindOf x)
+    rw [hc] at hcell
+    refine ⟨⟨s', s :: srest, rfl, Stk.push hstk hst hcell⟩, ?_, cons ++ [x], ?_, ?_⟩
+    · simp only [List.map_cons, List.sum_cons, pleaf, nodes, hsum]; omega
+    · have := SRel.cons (t := Tree.leaf x.kind) (seg := [x]) hrel rfl
+      simpa [tval, pleaf] using this
+    · rw [← hinp]; simp
+  · -- reduce
+    intro n x xs s srest vals row l al beta sp rest' j hrow hx hc hbeta hd hgo hj0
+      ⟨⟨q, qs, hsts, hstk⟩, hsum, cons, hrel, hinp⟩
+    cases hsts
+    refine ⟨?_, ?_, ?_⟩
+    · obtain ⟨q', qs', hd', hstk'⟩ := stk_drop hstk beta (by simpa using hbeta)
+      rw [hd] at hd'
+      cases hd'
+      obtain ⟨grow, hgrow1, hgrow2⟩ := Option.bind_eq_some_iff.mp hgo
+      obtain ⟨stp, hstp, hgrowok⟩ := hT.2 sp grow hgrow1
+      have htr := hgrowok l j hgrow2 hj0
+      refine ⟨j.toNat, sp :: rest', rfl, ?_⟩
+      have := Stk.push hstk' hstp htr
+      simpa [pact, Tree.root, List.map_drop] using this
+    · have h1 := congrArg (fun l => (l.map (fun p : Tree × Accum => nodes p.1)).sum)
+        (List.take_append_drop beta vals)
+      simp only [List.map_append, List.sum_append] at h1
+      simp only [List.map_cons, List.sum_cons, pact, nodes, fnodes_ofList, List.map_reverse,
+        List.sum_reverse, List.map_map]
+      simp only [Function.comp_def]
+      omega
+    · obtain ⟨c0, seg, h1, h2, h3, h4⟩ := srel_split hrel beta hbeta
+      refine ⟨c0 ++ seg, ?_, by rw [← h2]; exact hinp⟩
+      have := SRel.cons (t := Tree.node l al (Forest.ofList ((vals.take beta).map Prod.fst).reverse))
+        (seg := seg) h1 (by simpa [Tree.yield] using h3)
+      have hv : pact l al (vals.take beta) =
+          (Tree.node l al (Forest.ofList ((vals.take beta).map Prod.fst).reverse),
+            tval (Tree.node l al (Forest.ofList ((vals.take beta).map Prod.fst).reverse)) seg) := by
+        simp only [pact, tval, h4]
+      rw [hv]; exact this
+
+/-! ## 6. valid trees of the detector grammar: size, and what the accumulation is -/
+
+/-- height of the longest chain of unit rules below a symbol -/
+def rank : Sym → Nat
+  | .n 0 => 1 | .n 1 => 1 | .n 2 => 2 | .n 3 => 3 | .n 4 => 3 | .n 5 => 2 | .n 6 => 1 | _ => 0
+
+theorem rank_le (s : Sym) : rank s ≤ 3 := by
+  unfold rank; split <;> omega
+
+theorem fixed_rank : ∀ e ∈ fixedProds, ∀ a ∈ e.2,
+    10 + (a.map rank).sum ≤ 9 * a.length + rank (.n e.1) := by decide
+
+theorem sum_rank_le (l : List Sym) : (l.map rank).sum ≤ 9 * l.length := by
+  induction l with
+  | nil => simp
+  | cons s l ih => have := rank_le s; simp only [List.map_cons, List.sum_cons, List.length_cons]; omega
+
+theorem det_rule_facts (m : MacroDef) (l a : Nat) (rhs : List Sym)
+    (h : ((detectorGrammar m).alts l)[a]? = some rhs) :
+    (∀ s ∈ rhs, s ≠ .n DetGen.macroNT) ∧
+    (l ≠ DetGen.macroNT → 10 + (rhs.map rank).sum ≤ 9 * rhs.length + rank (.n l)) := by
+  obtain ⟨e, he, hn, hr⟩ := alts_entry (List.mem_of_getElem? h)
+  rw [det_prods] at he
+  rcases List.mem_append.mp he with he | he
+  · refine ⟨?_, fun _ => ?_⟩
+    · intro s hs hs7
+      have := (fixed_sym e he rhs hr s hs).2 7 hs7
+      omega
+    · rw [← hn]; exact fixed_rank e he rhs hr
+  · simp only [List.mem_singleton] at he
+    subst he
+    simp only [List.mem_singleton] at hr
+    subst hr
+    refine ⟨?_, fun hl => absurd hn.symm hl⟩
+    intro s hs hs7
+    obtain ⟨t, _, rfl⟩ := List.mem_map.mp hs
+    rcases ruleSym_cases t with h' | ⟨j, hj, h', _⟩
+    · rw [h'] at hs7; cases hs7
+    · rw [h'] at hs7; cases hs7; simp [DetGen.macroNT] at hj
+
+mutual
+theorem nodes_bound (m : MacroDef) : (t : Tree) → t.Valid (detectorGrammar m) →
+    t.root ≠ .n DetGen.macroNT → nodes t + 9 ≤ 10 * t.yield.length + rank t.root
+  | .leaf k, _, _ => by simp [nodes, Tree.yield, Tree.root, rank]
+  | .node l a cs, hv, hr => by
+    have hl : l ≠ DetGen.macroNT := by intro h; apply hr; simp [Tree.root, h]
+    obtain ⟨h1, h2⟩ := det_rule_facts m l a cs.roots hv.1
+    have := fnodes_bound m cs hv.2 h1
+    have := h2 hl
+    simp only [nodes, Tree.yield, Tree.root]
+    omega
+theorem fnodes_bound (m : MacroDef) : (f : Forest) → f.Valid (detectorGrammar m) →
+    (∀ s ∈ f.roots, s ≠ .n DetGen.macroNT) →
+    fnodes f + 9 * f.roots.length ≤ 10 * f.yield.length + (f.roots.map rank).sum
+  | .nil, _, _ => by simp [fnodes, Forest.roots, Forest.yield]
+  | .cons t f, hv, hr => by
+    have := nodes_bound m t hv.1 (hr _ (by simp [Forest.roots]))
+    have := fnodes_bound m f hv.2 (fun s hs => hr s (by simp [Forest.roots, hs]))
+    simp only [fnodes, Forest.roots, Forest.yield, List.length_cons, List.length_append, List.map_cons,
+      List.sum_cons]
+    omega
+end
+
+theorem macro_nodes_bound (m : MacroDef) (k : Nat) (cs : Forest)
+    (hv : (Tree.node DetGen.macroNT k cs).Valid (detectorGrammar m)) :
+    nodes (Tree.node DetGen.macroNT k cs) ≤ 10 * cs.yield.length + 1 := by
+  obtain ⟨h1, _⟩ := det_rule_facts m _ k cs.roots hv.1
+  have := fnodes_bound m cs hv.2 h1
+  have := sum_rank_le cs.roots
+  simp only [nodes]
+  omega
+
+mutual
+theorem tval_total (m : MacroDef) : (t : Tree) → (seg : List Token) → t.Valid (detectorGrammar m) →
+    t.root ≠ .n DetGen.macroNT → seg.map kindOf = t.yield → (tval t seg).total = seg
+  | .leaf k, seg, _, _, hs => by
+    match seg, hs with
+    | [x], _ => simp [tval, accLeaf]
+  | .node l a cs, seg, hv, hr, hs => by
+    have hl : l ≠ DetGen.macroNT := by intro h; apply hr; simp [Tree.root, h]
+    obtain ⟨h1, _⟩ := det_rule_facts m l a cs.roots hv.1
+    have := (tvalRev_split m cs seg hv.2 h1 hs).1
+    simp only [tval, accAct, if_neg hl]
+    rw [List.flatMap_def, List.map_reverse]
+    exact this
+theorem tvalRev_split (m : MacroDef) : (f : Forest) → (seg : List Token) → f.Valid (detectorGrammar m) →
+    (∀ s ∈ f.roots, s ≠ .n DetGen.macroNT) → seg.map kindOf = f.yield →
+    (((tvalRev f seg).map (·.total)).reverse).flatten = seg ∧
+    (((tvalRev f seg).map (·.total)).reverse).map (fun ts => ts.map kindOf) = f.toList.map Tree.yield
+  | .nil, seg, _, _, hs => by
+    simp only [Forest.yield, List.map_eq_nil_iff] at hs
+    subst hs
+    simp [tvalRev, Forest.toList]
+  | .cons t f, seg, hv, hr, hs => by
+    simp only [Forest.yield] at hs
+    have ht : (seg.take t.yield.length).map kindOf = t.yield := by
+      rw [List.map_take, hs, List.take_left']; rfl
+    have hf : (seg.drop t.yield.length).map kindOf = f.yield := by
+      rw [List.map_drop, hs, List.drop_left']; rfl
+    have h1 := tval_total m t _ hv.1 (hr _ (by simp [Forest.roots])) ht
+    obtain ⟨h2, h3⟩ := tvalRev_split m f _ hv.2 (fun s hs => hr s (by simp [Forest.roots, hs])) hf
+    simp only [tvalRev, List.map_append, List.map_cons, List.map_nil, List.reverse_append,
+      List.reverse_cons, List.reverse_nil, List.nil_append, List.cons_append, List.flatten_cons,
+      Forest.toList, h1, h2, h3, ht, List.take_append_drop, and_self]
+end
+
+/-- the accumulation of a `MACRO` tree: the split is the list of token ranges of the pattern's symbols -/
+theorem macro_value (m : MacroDef) (k : Nat) (cs : Forest)
+    (hv : (Tree.node DetGen.macroNT k cs).Valid (detectorGrammar m)) (seg : List Token)
+    (hs : seg.map kindOf = cs.yield) :
+    (tval (Tree.node DetGen.macroNT k cs) seg).split.flatten = seg ∧
+    (tval (Tree.node DetGen.macroNT k cs) seg).total.length = seg.length ∧
+    (tval (Tree.node DetGen.macroNT k cs) seg).split.map (fun ts => ts.map (·.kind)) =
+      cs.toList.map Tree.yield := by
+  obtain ⟨h1, _⟩ := det_rule_facts m _ k cs.roots hv.1
+  obtain ⟨h2, h3⟩ := tvalRev_split m cs seg hv.2 h1 hs
+  simp only [tval, accAct, if_pos]
+  refine ⟨h2, ?_, h3⟩
+  have := congrArg List.length h2
+  simp only [List.length_flatten, List.map_reverse, List.sum_reverse, List.map_map] at this
+  rw [← this, List.length_flatMap]
+  rfl
+
+/-! ## 7. C09 -/
+
+abbrev detT (m : MacroDef) : Tables :=
+  (genTables (detectorGrammar m) DetGen.macroNT Tok.T_EOF true detectorStateFuel).1
+
+theorem detectAt_eq (m : MacroDef) (inp : List Token) :
+    detectAt (mkDetector m) inp =
+      match prun (detT m) (detectFuel inp.length) inp [0] [] with
+      | .accept p => some p.2
+      | _ => none := by
+  unfold detectAt
+  show (match lrParse (detT m) kindOf accLeaf accAct (detectFuel inp.length) inp [0] [] with
+    | .accept v => some v
+    | _ => none) = _
+  rw [prun_snd]
+  cases prun (detT m) (detectFuel inp.length) inp [0] [] <;> rfl
+
+theorem match_derives (m : MacroDef) (inp : List Token) (a : Accum)
+    (h : detectAt (mkDetector m) inp = some a) :
+    ∃ (k : Nat) (cs : Forest),
+      (Tree.node DetGen.macroNT k cs).Valid (detectorGrammar m) ∧
+      cs.roots = m.rule.map ruleSym ∧
+      a.split.flatten = inp.take a.total.length ∧
+      a.total.length ≤ inp.length ∧
+      a.split.map (fun ts => ts.map (·.kind)) = cs.toList.map Tree.yield := by
+  rw [detectAt_eq] at h
+  cases hp : prun (detT m) (detectFuel inp.length) inp [0] [] with
+  | reject => rw [hp] at h; simp at h
+  | stuck => rw [hp] at h; simp at h
+  | fuelOut => rw [hp] at h; simp at h
+  | accept p =>
+    rw [hp] at h
+    simp only [Option.some.injEq] at h
+    obtain ⟨t, a'⟩ := p
+    simp only at h
+    subst h
+    obtain ⟨cons, x, xs, hinp, hy, ha, _⟩ := prun_accept (detectorGrammar m) DetGen.macroNT Tok.T_EOF true
+      detectorStateFuel (det_closed m) (det_start_lt m) _ inp t a' hp
+    have htree : lrParseTree (detT m) (detectFuel inp.length) (inp.map kindOf) = .accept t := by
+      rw [prun_fst, hp]; rfl
+    obtain ⟨hval, hroot, _⟩ := sound_prefix (detectorGrammar m) DetGen.macroNT Tok.T_EOF detectorStateFuel
+      _ _ t (det_closed m) (det_start_lt m) htree
+    cases t with
+    | leaf k => simp [Tree.root] at hroot
+    | node l k cs =>
+      simp only [Tree.root, Sym.n.injEq] at hroot
+      subst hroot
+      have hk := hval.1
+      rw [det_alts_macro] at hk
+      have hroots : cs.roots = m.rule.map ruleSym := by
+        cases k with
+        | zero => simpa using hk.symm
+        | succ k => simp at hk
+      simp only [Tree.yield] at hy
+      obtain ⟨h1, h2, h3⟩ := macro_value m k cs hval cons hy
+      rw [← ha] at h1 h2 h3
+      refine ⟨k, cs, hval, hroots, ?_, ?_, h3⟩
+      · rw [h2, hinp, List.take_left']; exact h1
+        rfl
+      · rw [h2, hinp]; simp
+
+theorem match_complete (m : MacroDef)
+    (hf : (genTables (detectorGrammar m) DetGen.macroNT Tok.T_EOF true detectorStateFuel).2 < detectorStateFuel)
+    (hc : (mkDetector m).tables.conflicts = [])
+    (k : Nat) (cs : Forest) (hv : (Tree.node DetGen.macroNT k cs).Valid (detectorGrammar m))
+    (inp : List Token) (n : Nat) (hn : n < inp.length)
+    (hy : (inp.take n).map (·.kind) = cs.yield)
+    (hk : ∀ t ∈ inp, t.kind ≤ Tok.WITH) :
+    ∃ a, detectAt (mkDetector m) inp = some a ∧ a.total.length = n ∧
+      a.split.map (fun ts => ts.map (·.kind)) = cs.toList.map Tree.yield := by
+  have hlen : cs.yield.length = n := by
+    rw [← hy]; simp; omega
+  have hsplit : inp.map kindOf = (Tree.node DetGen.macroNT k cs).yield ++
+      (inp[n]).kind :: (inp.drop (n + 1)).map kindOf := by
+    have h1 : inp = inp.take n ++ inp[n] :: inp.drop (n + 1) := by
+      rw [← List.drop_eq_getElem_cons hn, List.take_append_drop]
+    conv => lhs; rw [h1]
+    simp only [List.map_append, List.map_cons, Tree.yield]
+    rw [← hy]
+  have ha : (inp[n]).kind ≤ ((detectorGrammar m).augment DetGen.macroNT Tok.T_EOF).maxTerminal :=
+    Nat.le_trans (hk _ (List.getElem_mem hn)) (det_maxT_ge m)
+  obtain ⟨fuel, hfuel⟩ := complete_prefix (detectorGrammar m) DetGen.macroNT Tok.T_EOF detectorStateFuel
+    (Tree.node DetGen.macroNT k cs) _ ((inp.drop (n + 1)).map kindOf) (det_closed m) (det_start_lt m)
+    hv rfl ha hc hf
+  rw [← hsplit] at hfuel
+  -- the pair run accepts, after `nodes t + 1` steps
+  have hfuel' : lrParseTree (detT m) fuel (inp.map kindOf) = .accept (Tree.node DetGen.macroNT k cs) := hfuel
+  rw [prun_fst] at hfuel'
+  cases hp : prun (detT m) fuel inp [0] [] with
+  | reject => rw [hp] at hfuel'; simp [pmap] at hfuel'
+  | stuck => rw [hp] at hfuel'; simp [pmap] at hfuel'
+  | fuelOut => rw [hp] at hfuel'; simp [pmap] at hfuel'
+  | accept p =>
+    rw [hp] at hfuel'
+    obtain ⟨t, a0⟩ := p
+    simp only [pmap, ParseOut.accept.injEq] at hfuel'
+    subst hfuel'
+    obtain ⟨_, _, _, _, _, _, hsteps⟩ := prun_accept (detectorGrammar m) DetGen.macroNT Tok.T_EOF true
+      detectorStateFuel (det_closed m) (det_start_lt m) _ inp _ a0 hp
+    have hbound := macro_nodes_bound m k cs hv
+    have htree : lrParseTree (detT m) (nodes (Tree.node DetGen.macroNT k cs) + 1) (inp.map kindOf) =
+        .accept (Tree.node DetGen.macroNT k cs) := by
+      rw [prun_fst]
+      show pmap Prod.fst (prun (detT m) _ inp [0] []) = _
+      rw [hsteps]; rfl
+    have htree2 := fuel_mono (detT m) _
+      (detectFuel inp.length - (nodes (Tree.node DetGen.macroNT k cs) + 1)) _ _ htree (by simp)
+    have hfe : nodes (Tree.node DetGen.macroNT k cs) + 1 +
+        (detectFuel inp.length - (nodes (Tree.node DetGen.macroNT k cs) + 1)) = detectFuel inp.length := by
+      simp only [detectFuel]; omega
+    rw [hfe, prun_fst] at htree2
+    cases hp2 : prun (detT m) (detectFuel inp.length) inp [0] [] with
+    | reject => rw [hp2] at htree2; simp [pmap] at htree2
+    | stuck => rw [hp2] at htree2; simp [pmap] at htree2
+    | fuelOut => rw [hp2] at htree2; simp [pmap] at htree2
+    | accept p2 =>
+      rw [hp2] at htree2
+      obtain ⟨t2, a1⟩ := p2
+      simp only [pmap, ParseOut.accept.injEq] at htree2
+      subst htree2
+      obtain ⟨cons, x, xs, hinp, hyc, hac, _⟩ := prun_accept (detectorGrammar m) DetGen.macroNT Tok.T_EOF
+        true detectorStateFuel (det_closed m) (det_start_lt m) _ inp _ a1 hp2
+      simp only [Tree.yield] at hyc
+      obtain ⟨_, h2, h3⟩ := macro_value m k cs hv cons hyc
+      rw [← hac] at h2 h3
+      refine ⟨a1, ?_, ?_, h3⟩
+      · rw [detectAt_eq, hp2]
+      · rw [h2, ← hlen, ← hyc]; simp
+
+theorem text_constraints (m : MacroDef) (split : List (List Token)) (h : checkConstraint m split = true)
+    (ci : Nat) (hci : ci ∈ m.cc) :
+    ∃ req f, m.rule[ci]? = some req ∧ split[ci]? = some [f] ∧ f.text = req.text := by
+  unfold checkConstraint at h
+  rw [List.all_eq_true] at h
+  have := h ci hci
+  split at this
+  · rename_i req f h1 h2
+    exact ⟨req, f, h1, h2, by simpa using this⟩
+  · simp at this
+
 end DetectorProofs
 end Theo
